@@ -101,7 +101,7 @@ Step(i) ==
        /\ g' = GGhostNext(g, e.ln)
        /\ smg' = f.g
        /\ bad5' = f.bad
-       /\ kn' = GKnown(g, e.ln)
+       /\ kn' = GObs(g, e.ln)
        /\ last' = i
        /\ hist' = Append(hist, i)
 
@@ -114,7 +114,7 @@ StepProps == [][GFailed(g, ln') = {}]_vars
 G5_Model == bad5 = {}
 
 EmitInv == (~Emit) \/ PrintT(<<"B", hist>>)
-(* histories on which a listed known finding shows (spec level); replayed as witnesses *)
+(* histories on which an observation (GObs) shows at the spec level; some are replayed *)
 EmitKnown == (~Emit) \/ kn = {} \/ PrintT(<<"K", hist>>)
 View == <<mc, gsets, app, chainEv, openEv, dirty, kp, g, smg, last>>     \* one history per (state, last op)
 ViewS == <<mc, gsets, app, chainEv, openEv, dirty, kp, g, smg>>          \* one history per state
@@ -143,20 +143,28 @@ G4_AcceptPremise(s) ==
     /\ LiveQuorum(LastCfg(app), Live)
     /\ s.act - Delta <= MaxMC
 
-G4_LiveAccept == \A i \in DOMAIN SetCands : G4_AcceptPremise(SetCands[i]) ~> AcceptedSet(SetCands[i])
+EnvOK == EnvMonotone(gsets)
+
+(* as stated: under the environment assumption (once a set with a lower activation than its
+   predecessor is on the chain nothing is asserted any more) *)
+G4_LiveAccept == \A i \in DOMAIN SetCands : G4_AcceptPremise(SetCands[i]) ~> (AcceptedSet(SetCands[i]) \/ ~EnvOK)
 G4_LiveStart  == \A i \in DOMAIN SetCands :
                     (AcceptedSet(SetCands[i]) /\ LiveQuorum(PrevOf(SetCands[i]), Live) /\ SetCands[i].act < MaxMC)
-                        ~> StartedSet(SetCands[i])
+                        ~> (StartedSet(SetCands[i]) \/ ~EnvOK)
 
-(* known finding GOV-1: a keyper set that follows a not-yet-accepted one and activates EARLIER
-   passes validateBatchConfig (which compares with the latest config in shuttermint, not with the
-   pending predecessor); its vote can never be accepted and stays at the head of the outbox for
-   ever (isRetrieable is constant TRUE), so that keyper never reports a block again *)
+(* sharper, without the environment assumption: an accepted config stays unstarted only if the
+   keypers that are NOT mute (outbox head = a vote that can never be accepted, retried for ever
+   because isRetrieable is constant TRUE) are fewer than the threshold.  G4_LiveStartAny is
+   expected to be VIOLATED when SetCands contains a set activating before its predecessor. *)
 StuckVote(a) == StuckHead(kp[a].outbox, LastCfg(app))
 Unstuck == {a \in Live : ~StuckVote(a)}
-G4_LiveStart_ModuloKnown ==
+G4_LiveStartSharp ==
     \A i \in DOMAIN SetCands :
         (AcceptedSet(SetCands[i]) /\ LiveQuorum(PrevOf(SetCands[i]), Live) /\ SetCands[i].act < MaxMC)
             ~> (StartedSet(SetCands[i]) \/ ~LiveQuorum(PrevOf(SetCands[i]), Unstuck))
+G4_LiveStartAny ==
+    \A i \in DOMAIN SetCands :
+        (AcceptedSet(SetCands[i]) /\ LiveQuorum(PrevOf(SetCands[i]), Live) /\ SetCands[i].act < MaxMC)
+            ~> StartedSet(SetCands[i])
 
 =============================================================================
